@@ -28,8 +28,8 @@ pub const TOPIC: &str = "lease_t";
 pub struct LeaseSim {
   pub db: DiscoveryDB,
   /// the receive path as far as the life sign goes: a real MessageReceiver with the SPDP built-in reader
-  mr: crate::rtps::message_receiver::MessageReceiver,
-  live_rx: mio_channel::Receiver<crate::structure::guid::GuidPrefix>,
+  /// (built at the first wire-level life sign: most histories have none)
+  wire: Option<(crate::rtps::message_receiver::MessageReceiver, mio_channel::Receiver<crate::structure::guid::GuidPrefix>)>,
   _keep: Vec<Box<dyn std::any::Any>>,
 }
 
@@ -76,22 +76,14 @@ impl LeaseSim {
     super::clock::install_instant();
     let (t_tx, t_rx) = mio_channel::sync_channel::<()>(1);
     let (ps_tx, ps_rx) = sync_status_channel(1024).unwrap();
-    super::net::install();
-    let (acknack_tx, acknack_rx) = mio_channel::sync_channel(100);
-    let (live_tx, live_rx) = mio_channel::sync_channel(8);
-    let mut mr = crate::rtps::message_receiver::MessageReceiver::new(prefix(1), acknack_tx, live_tx, None);
-    let q = qos(false, 1, false);
-    let mut kit = super::parts::mk_reader(GUID::new_with_prefix_and_id(prefix(1), EntityId::SPDP_BUILTIN_PARTICIPANT_READER), "DCPSParticipant", "SpdpDiscoveredParticipantData", &q);
-    mr.add_reader(kit.reader.take().unwrap());
     LeaseSim {
       db: DiscoveryDB::new(
         GUID::new_with_prefix_and_id(prefix(1), EntityId::PARTICIPANT),
         t_tx,
         ps_tx,
       ),
-      mr,
-      live_rx,
-      _keep: vec![Box::new(t_rx), Box::new(ps_rx), Box::new(acknack_rx), Box::new(kit)],
+      wire: None,
+      _keep: vec![Box::new(t_rx), Box::new(ps_rx)],
     }
   }
   /// Participant p sends its SPDP announcement once more, unchanged and with the same sequence number (as
@@ -103,8 +95,21 @@ impl LeaseSim {
     let w = GUID::new_with_prefix_and_id(pguid(p).prefix, EntityId::SPDP_BUILTIN_PARTICIPANT_WRITER);
     let rid = if explicit_reader { EntityId::SPDP_BUILTIN_PARTICIPANT_READER } else { EntityId::UNKNOWN };
     let bytes = super::wire::data_msg(&super::wire::cc_data(w, 1, vec![0; 8]), rid, None);
-    self.mr.handle_received_packet(&bytes::Bytes::from(bytes));
-    while let Ok(guid_prefix) = self.live_rx.try_recv() {
+    if self.wire.is_none() {
+    super::net::install();
+      let (acknack_tx, acknack_rx) = mio_channel::sync_channel(100);
+      let (live_tx, live_rx) = mio_channel::sync_channel(8);
+      let mut mr = crate::rtps::message_receiver::MessageReceiver::new(prefix(1), acknack_tx, live_tx, None);
+      let q = qos(false, 1, false);
+      let mut kit = super::parts::mk_reader(GUID::new_with_prefix_and_id(prefix(1), EntityId::SPDP_BUILTIN_PARTICIPANT_READER), "DCPSParticipant", "SpdpDiscoveredParticipantData", &q);
+      mr.add_reader(kit.reader.take().unwrap());
+      self._keep.push(Box::new(acknack_rx));
+      self._keep.push(Box::new(kit));
+      self.wire = Some((mr, live_rx));
+    }
+    let (mr, live_rx) = self.wire.as_mut().unwrap();
+    mr.handle_received_packet(&bytes::Bytes::from(bytes));
+    while let Ok(guid_prefix) = live_rx.try_recv() {
       self.db.participant_is_alive(guid_prefix);
     }
     super::net::drain();
